@@ -75,7 +75,7 @@ type rhIn struct {
 
 func postC19Replay(rc *RunCtx, res *simrt.Result) {
 	h, _ := rc.PostData.(*c07hist)
-	if h == nil || len(h.calls)+len(h.resizes) > 60 || len(h.calls) == 0 {
+	if h == nil || len(h.calls)+len(h.resizes) > 150 || len(h.calls) == 0 {
 		return
 	}
 	var ops []porcupine.Operation
